@@ -99,6 +99,26 @@ def _paths():
     ex = Explorer().explore(h5)
     if not (ex.exhausted and ex.paths == 1 and not ex.violations):
         bad.append(('h5', ex.stats()))
+    def h6(sx):  # empty bounds never give a vacuous pass; SymBool compared with ints
+        n = sx.int('n', 0, 2)
+        b = sx.bool('b')
+        sx.check((b == 1) == b, 'bool-eq-1')
+        sx.check((b != 0) == b, 'bool-ne-0')
+        i = sx.int('i', 0, n - 1)   # empty when n == 0: that path is dropped
+        sx.check(n > 0, 'reached-only-with-n>0')
+        sx.check(i < n, 'in-range')
+
+    ex = Explorer().explore(h6)
+    if not (ex.exhausted and not ex.violations and ex.paths_assume >= 1):
+        bad.append(('h6', ex.stats()))
+
+    def h7(sx):
+        x = sx.int('x', 5, 3)
+        sx.fail('unreachable-empty-bounds')
+
+    ex = Explorer().explore(h7)
+    if not (ex.exhausted and not ex.violations and ex.checks_reached == 0):
+        bad.append(('h7', ex.stats()))
     return bad
 
 
